@@ -7,7 +7,12 @@
     deleteOldReceipts, swapTxMapping, swapChainMapping bulk, marker delete), with crash_best_legit and
     state_available; crash_replay_converges for main-chain connection and for reorg crashes after the
     marker (the restart already holds the crash-free store); refuted for reorg crashes before the marker
-    (known finding).  Bulk flushes and committed transactions are atomic units (no partial flush). *)
+    (known finding).  Partial flush: every prefix of the operations inside the swapTxMapping delete bulk
+    and inside the swapChainMapping bulk is recoverable (the marker outlives them); a partial flush of
+    the RecoverChainMapping bulk is NOT (refuted).  Crash during the recovery itself (atomic units):
+    a further restart ends in the same final store (recovery is idempotent).  The state-commit bulk has a
+    single modelled operation (its marker, written last); its partial flushes are exercised on the real
+    code by the engine only. *)
 From Coq Require Import NArith List Bool.
 From Verif Require Import ChainDB.Model ChainDB.Inv ChainDB.Reorg ChainDB.Crash ChainDB.CrashReorg ChainDB.RefuteFork.
 Import ListNotations.
@@ -153,3 +158,86 @@ Theorem C06_crash_replay_converges_refuted :
     end.
 Proof. exact crash_replay_converges_refuted. Qed.
 Print Assumptions C06_crash_replay_converges_refuted.
+
+(** _partial_flush, deleteOldReceipts / swapTxMapping: crash after the marker write and ANY prefix of
+    the individual operations that follow up to the height bulk (in particular inside the bulk deleting
+    the abandoned tx-index entries): recovery ends in the crash-free final store. *)
+Theorem C06_crash_partial_flush_mid :
+  forall (apply : sroot -> block -> option sroot) (spent : sroot -> txid -> bool),
+  (forall r b r', apply r b = Some r' -> NoDup (txs b) /\ forall t, In t (txs b) -> spent r t = false) ->
+  (forall r b r' t, apply r b = Some r' -> spent r' t = spent r t || mem t (txs b)) ->
+  forall (U : block -> Prop), (forall a b, U a -> U b -> hash_field a = hash_field b -> a = b) ->
+  forall (g : block),
+  forall n, Inv apply spent U g n ->
+  forall top st news olds, U top -> get_block (dur n) (hash_field top) = Some top -> no (best n) < no top ->
+  gather (S (N.to_nat (no top))) (dur n) (no (best n)) top [] [] = Some (st, news, olds) ->
+  forall n2, rollforward apply (set_sdb n (root st)) (rev news) = (n2, true) ->
+  let m := mkMarker (hash_field st) (no st) (hash_field (best n)) (no (best n)) (hash_field top) (no top) in
+  let nF := swap_chain n2 m top news olds false in
+  forall j, exists r,
+    restart true (apply_ops (apply_unit (dur n2) (marker_write_unit m)) (firstn j (all_ops (swap_mid news olds)))) = Some (StartOk r) /\
+    Inv apply spent U g r /\ best r = top /\ (forall k, dur r k = dur nF k).
+Proof. intros; eapply crash_partial_flush_mid; eauto. Qed.
+Print Assumptions C06_crash_partial_flush_mid.
+
+(** _partial_flush, swapChainMapping: crash after any prefix of the operations INSIDE its bulk (heights
+    of the new branch in ascending order, Latest last). *)
+Theorem C06_crash_partial_flush_heights :
+  forall (apply : sroot -> block -> option sroot) (spent : sroot -> txid -> bool),
+  (forall r b r', apply r b = Some r' -> NoDup (txs b) /\ forall t, In t (txs b) -> spent r t = false) ->
+  (forall r b r' t, apply r b = Some r' -> spent r' t = spent r t || mem t (txs b)) ->
+  forall (U : block -> Prop), (forall a b, U a -> U b -> hash_field a = hash_field b -> a = b) ->
+  forall (g : block),
+  forall n, Inv apply spent U g n ->
+  forall top st news olds, U top -> get_block (dur n) (hash_field top) = Some top -> no (best n) < no top ->
+  gather (S (N.to_nat (no top))) (dur n) (no (best n)) top [] [] = Some (st, news, olds) ->
+  forall n2, rollforward apply (set_sdb n (root st)) (rev news) = (n2, true) ->
+  let m := mkMarker (hash_field st) (no st) (hash_field (best n)) (no (best n)) (hash_field top) (no top) in
+  let nF := swap_chain n2 m top news olds false in
+  forall j, exists r,
+    restart true (apply_ops (replay (dur n2) (marker_write_unit m :: swap_mid news olds))
+                    (firstn j (u_ops (heights_unit (rev news) top)))) = Some (StartOk r) /\
+    Inv apply spent U g r /\ best r = top /\ (forall k, dur r k = dur nF k).
+Proof. intros; eapply crash_partial_flush_heights; eauto. Qed.
+Print Assumptions C06_crash_partial_flush_heights.
+
+(** Crash during recovery: first crash at unit j of the swap (after the marker write, before the
+    marker delete), then a crash after any prefix k of the write units the recovery itself issues
+    (RecoverChainMapping bulk, redone swap units): the next restart ends in the crash-free final store. *)
+Theorem C06_crash_during_recovery :
+  forall (apply : sroot -> block -> option sroot) (spent : sroot -> txid -> bool),
+  (forall r b r', apply r b = Some r' -> NoDup (txs b) /\ forall t, In t (txs b) -> spent r t = false) ->
+  (forall r b r' t, apply r b = Some r' -> spent r' t = spent r t || mem t (txs b)) ->
+  forall (U : block -> Prop), (forall a b, U a -> U b -> hash_field a = hash_field b -> a = b) ->
+  forall (g : block),
+  forall n, Inv apply spent U g n ->
+  forall top st news olds, U top -> get_block (dur n) (hash_field top) = Some top -> no (best n) < no top ->
+  gather (S (N.to_nat (no top))) (dur n) (no (best n)) top [] [] = Some (st, news, olds) ->
+  forall n2, rollforward apply (set_sdb n (root st)) (rev news) = (n2, true) ->
+  let m := mkMarker (hash_field st) (no st) (hash_field (best n)) (no (best n)) (hash_field top) (no top) in
+  let nF := swap_chain n2 m top news olds false in
+  forall j k, (1 <= j)%nat -> (j < length (swap_units m top news olds))%nat ->
+  let c := crash j (dur n2) (swap_units m top news olds) in
+  exists r', restart true (replay c (firstn k (restart_units c))) = Some (StartOk r') /\
+             Inv apply spent U g r' /\ best r' = top /\ (forall key, dur r' key = dur nF key).
+Proof. intros; eapply crash_twice; eauto. Qed.
+Print Assumptions C06_crash_during_recovery.
+
+(** A partial flush inside the RecoverChainMapping bulk is not recoverable (Latest still names a height
+    whose mapping has been deleted): restart fails with ErrorLoadBestBlock. *)
+Theorem C06_recover_chain_mapping_partial_flush_refuted :
+  exists (apply : sroot -> block -> option sroot) (n : node) (b : block),
+    let n' := fst (add_block apply true true 100 n b) in
+    let us := units_since n n' in
+    let c3 := crash (length us - 1) (dur n) us in
+    match restart true c3 with
+    | Some (StartOk r) =>
+        hash_field (best r) = hash_field b /\
+        match rev (jlog r) with
+        | u :: _ => u_kind u = UBulk /\ restart true (apply_ops c3 (firstn 1 (u_ops u))) = None
+        | [] => False
+        end
+    | _ => False
+    end.
+Proof. exact recover_chain_mapping_partial_flush_refuted. Qed.
+Print Assumptions C06_recover_chain_mapping_partial_flush_refuted.
